@@ -8712,3 +8712,53 @@ class FnG(FnE):
 
 
 FN_CLASS.update({u[1]: FnG for u in SRCG_UNITS})
+
+
+# ---- SRCG: netaddr/compat.py.  Every compat name whose reading the translator only justified by "it is imported from netaddr.compat"
+# is checked here against the binding the translator assumes (the Python 3 branch, the first binding in the file; the Python 2
+# branch is dead on every supported interpreter): name -> the source text its first binding must be equal to (as an AST).
+# A name whose binding differs is REMOVED from the import table of every parsed module, so that exactly the functions that use it
+# stop translating (each use site tests `imports.get(name) == "netaddr.compat.<name>"`): fail closed, scoped.
+SRCG_COMPAT_EXPECT = {
+    "_int_type": "_int_type = int",
+    "_str_type": "_str_type = str",
+    "_dict_keys": "_dict_keys = lambda x: list(x.keys())",
+    "_dict_items": "_dict_items = lambda x: list(x.items())",
+    "_iter_next": "def _iter_next(x):\n    return next(x)",
+    "_range": "def _range(*args, **kwargs):\n    return list(range(*args, **kwargs))",
+    "_bytes_join": "def _bytes_join(*args):\n    return ''.encode().join(*args)",
+    "_importlib_resources": "from importlib import resources as _importlib_resources",
+}
+SRCG_COMPAT_CACHE = {}
+
+
+def srcg_compat_bad_names():
+    """the names of SRCG_COMPAT_EXPECT whose first binding in netaddr/compat.py is not the expected one (cached per file text)"""
+    fn = os.path.join(REPO, "netaddr/compat.py")
+    text = open(fn, encoding="utf-8").read()
+    if SRCG_COMPAT_CACHE.get("text") != text:
+        tree, badn = ast.parse(text), set()
+        for name, want in SRCG_COMPAT_EXPECT.items():
+            binds = [n for n in ast.walk(tree) if (isinstance(n, (ast.FunctionDef, ast.ClassDef)) and n.name == name)
+                     or (isinstance(n, (ast.Import, ast.ImportFrom)) and any((a.asname or a.name) == name for a in n.names))
+                     or (isinstance(n, (ast.Assign, ast.AugAssign, ast.AnnAssign)) and any(
+                         isinstance(t, ast.Name) and t.id == name and isinstance(t.ctx, ast.Store) for t in ast.walk(n)))]
+            binds.sort(key=lambda n: n.lineno)
+            w = ast.parse(want).body[0]
+            if not binds or ast.dump(binds[0]) != ast.dump(w):
+                badn.add(name)
+        SRCG_COMPAT_CACHE["text"], SRCG_COMPAT_CACHE["bad"] = text, badn
+    return SRCG_COMPAT_CACHE["bad"]
+
+
+_module_init_before_SRCG = Module.__init__
+
+
+def _srcg_module_init(self, fn):
+    _module_init_before_SRCG(self, fn)
+    for name in srcg_compat_bad_names():
+        if self.imports.get(name) == "netaddr.compat." + name:
+            del self.imports[name]
+
+
+Module.__init__ = _srcg_module_init
